@@ -1,11 +1,11 @@
-\* quick: every class (and interface) of <= 3 functions over 48 shapes (constructor or not; 0/4/5/6 parameters;
-\* 0/8/9 calls; 2/3 lines: the values on both sides of every threshold of R2 and R3), one class per model;
+\* quick: every class of <= 3 functions over 48 shapes (constructor or not; 0/4/5/6 parameters;
+\* 0/8/9 calls; 2/3 lines: the values on both sides of every threshold of R2 and R3), one class per model (interfaces: X02Suggest_MC_pair.cfg);
 \* repaired longest-constructor register and merge (proposed_fixes/X02-1.patch, X02-2.patch)
 SPECIFICATION Spec
 CONSTANTS
   MaxClasses = 1
   MaxFuncs = 3
-  Types = {"Class", "Interface"}
+  Types = {"Class"}
   Shapes <- ShapesQuick
   LongestInit = "constructors"
   MergeKeeps = "first"
